@@ -267,6 +267,13 @@ fn mutations(name: &str, file: &[u8], rng: &mut Rng, thorough: bool) -> Vec<(Str
 /// cross-field disagreements built on purpose
 fn crafted(rng: &mut Rng) -> Vec<(String, Vec<u8>)> {
     let mut v = Vec::new();
+    // the `max_symbol` field of a normal prefix code at every width, at the boundary values of the
+    // width and of the alphabet
+    for n3 in 0..8u32 {
+        for value in crate::vp8lbits::max_symbol_values(n3, 280) {
+            v.push((format!("crafted:max_symbol_n3={n3}_value={value}"), crate::vp8lbits::file_with_max_symbol(n3, value, &[1, 1])));
+        }
+    }
     let rgba = random_rgba(rng, 6, 5, 3);
     let alpha: Vec<u8> = rgba.chunks_exact(4).map(|p| p[3]).collect();
     // ANMF whose ALPH+VP8 frame's VP8 dimensions disagree with the ANMF header
